@@ -74,10 +74,10 @@ def _doc(pid):
             if key in l and ":" in l.split(key, 1)[1]:
                 txt = l.split(key, 1)[1].split(":", 1)[1]
                 j = i + 1
-                while j < len(lines) and lines[j].strip() and not lines[j].lstrip().startswith(("* ", "- ", "#", "|")):
+                while j < len(lines) and lines[j].strip() and not lines[j].lstrip().startswith(("* ", "- ", "#", "|", "`level_", "`technique")):
                     txt += " " + lines[j]
                     j += 1
-                return " ".join(txt.replace("`", "").split()).strip(' "').rstrip('.')
+                return " ".join(txt.replace("`", "").split()).strip(' ".')
         return ""
     return grab("level_claimed.text"), grab("level_note"), grab("technique")
 for f in sorted(glob.glob(os.path.join(ROOT, "checks", "C*.py"))):
